@@ -18,6 +18,7 @@ pub fn generate(driver: &str, seed: u64, count: u64, opts: &Opts) -> Vec<History
             "paired" => out.extend(paired(&mut rng, i, opts)),
             "chunked" => out.extend(chunked(&mut rng, i, opts)),
             "soup" => out.extend(soup(&mut rng, i, opts)),
+            "chunkedsoup" => out.extend(chunkedsoup(&mut rng, i, opts)),
             "captured" => out.extend(captured(&mut rng, i, opts)),
             "recsoup" => out.extend(recsoup(&mut rng, i, opts)),
             _ => panic!("unknown driver {}", driver),
@@ -389,12 +390,7 @@ pub fn chunked(rng: &mut Rng, i: u64, opts: &Opts) -> Vec<History> {
     out
 }
 
-/// byte soup: every C0/C1 control, truncated and garbled escape sequences,
-/// invalid and split UTF-8, random chunking, both parser modes (C01, C09)
-pub fn soup(rng: &mut Rng, i: u64, opts: &Opts) -> Vec<History> {
-    let n: u64 = getopt(opts, "bytes", "120").parse().unwrap();
-    let utf8 = if getopt(opts, "utf8", "mix") == "mix" { rng.chance(2, 3) } else { getopt(opts, "utf8", "1") != "0" };
-    let (c, l) = geom(rng, opts);
+fn soup_bytes(rng: &mut Rng, n: u64, c: u32, l: u32, utf8: bool) -> Vec<u8> {
     let w = weights("");
     let mut bytes: Vec<u8> = Vec::new();
     while (bytes.len() as u64) < n {
@@ -423,6 +419,16 @@ pub fn soup(rng: &mut Rng, i: u64, opts: &Opts) -> Vec<History> {
             }
         }
     }
+    bytes
+}
+
+/// byte soup: every C0/C1 control, truncated and garbled escape sequences,
+/// invalid and split UTF-8, random chunking, both parser modes (C01, C09)
+pub fn soup(rng: &mut Rng, i: u64, opts: &Opts) -> Vec<History> {
+    let n: u64 = getopt(opts, "bytes", "120").parse().unwrap();
+    let utf8 = if getopt(opts, "utf8", "mix") == "mix" { rng.chance(2, 3) } else { getopt(opts, "utf8", "1") != "0" };
+    let (c, l) = geom(rng, opts);
+    let bytes = soup_bytes(rng, n, c, l, utf8);
     let mut evs = Vec::new();
     let cuts = cut_points(rng, bytes.len(), 3);
     let mut prev = 0usize;
@@ -443,6 +449,30 @@ pub fn soup(rng: &mut Rng, i: u64, opts: &Opts) -> Vec<History> {
     evs.push(HEv { b: vec![0x50], ..hev("feedb", vec![], vec![], false, "bytes") });
     evs.push(hev("display", vec![], vec![], false, "api"));
     vec![History { id: format!("soup-{}", i), sid: String::new(), cmp: String::new(), c, l, scr: true, utf8, evs, setup: vec![], dispsetup: false }]
+}
+
+/// the same byte soup (malformed and truncated UTF-8, garbled sequences) under several
+/// chunkings, compared under C02
+pub fn chunkedsoup(rng: &mut Rng, i: u64, opts: &Opts) -> Vec<History> {
+    let n: u64 = getopt(opts, "bytes", "60").parse().unwrap();
+    let utf8 = getopt(opts, "utf8", "1") != "0";
+    let (c, l) = geom(rng, opts);
+    let bytes = soup_bytes(rng, n, c, l, utf8);
+    let sid = format!("csoup-{}", i);
+    let mut out = Vec::new();
+    for style in 0..6u64 {
+        let cuts = cut_points(rng, bytes.len(), style.min(3));
+        let mut evs = Vec::new();
+        let mut prev = 0usize;
+        let mut bounds = cuts;
+        bounds.push(bytes.len());
+        for b in bounds {
+            evs.push(HEv { b: bytes[prev..b].to_vec(), ..hev("feedb", vec![], vec![], false, "bytes") });
+            prev = b;
+        }
+        out.push(History { id: format!("{}-{}", sid, style), sid: sid.clone(), cmp: "C02".into(), c, l, scr: true, utf8, evs, setup: vec![], dispsetup: false });
+    }
+    out
 }
 
 /// recogniser-level soup over the class alphabet, recording listener only (C03, C11, C19)
